@@ -40,6 +40,16 @@ func c17Gen(rt *rapid.T) c17Case {
 	n := rapid.IntRange(8, 60).Draw(rt, "nops")
 	cfg := gen.HistCfg{MaxTables: 3, MaxCols: 3, Direct: true, RowCounts: []int{1, 1, 2, 3, 8, 9, 10}, Small: true}
 	st := gen.NewStyle(rt)
+	// database names are case-insensitive (one file pair per lower-cased name)
+	spell := func(name string) string {
+		switch rapid.IntRange(0, 5).Draw(rt, "namecase") {
+		case 0:
+			return strings.ToUpper(name)
+		case 1:
+			return strings.ToUpper(name[:1]) + name[1:]
+		}
+		return name
+	}
 	for len(c.Ops) < n {
 		w := []string{"createdb", "use", "use", "show", "tick", "restart"}
 		if cur != "" {
@@ -53,7 +63,7 @@ func c17Gen(rt *rapid.T) c17Case {
 		switch rapid.SampledFrom(w).Draw(rt, "op") {
 		case "createdb":
 			name := rapid.SampledFrom(c17Names).Draw(rt, "dbname")
-			c.Ops = append(c.Ops, c17Op{Op: "createdb", Name: name, SQL: st.KW("CREATE") + st.SP() + st.KW("DATABASE") + st.SP() + name + st.End()})
+			c.Ops = append(c.Ops, c17Op{Op: "createdb", Name: name, SQL: st.KW("CREATE") + st.SP() + st.KW("DATABASE") + st.SP() + spell(name) + st.End()})
 			if dbs[name] == nil {
 				dbs[name] = model.NewDB()
 			}
@@ -64,7 +74,7 @@ func c17Gen(rt *rapid.T) c17Case {
 				names = append(names, cur, cur) // re-selecting the current database
 			}
 			name := rapid.SampledFrom(names).Draw(rt, "usename")
-			c.Ops = append(c.Ops, c17Op{Op: "use", Name: name, SQL: st.KW("USE") + st.SP() + name + st.End()})
+			c.Ops = append(c.Ops, c17Op{Op: "use", Name: name, SQL: st.KW("USE") + st.SP() + spell(name) + st.End()})
 			if dbs[name] != nil {
 				cur = name
 			}
